@@ -300,9 +300,12 @@ pub fn gen19(r: &mut Rng, n: usize, thorough: bool) -> Vec<String> {
     for k in 0..n {
         if !thorough && k == 5 {
             out.push("e2e 3 gfh 2".to_string());
+        } else if !thorough && k == 6 {
+            // a failure reason and nothing else going on (no probe, no peer): the next announce must still come
+            out.push("e2e 1 f 1".to_string());
         } else if thorough && k < 5 {
             // the last one: more failed announces than the command channel holds (about 70 s of real time)
-            out.push(["e2e 0 g 3", "e2e 1 h 1", "e2e 3 cnh 2", "e2e 2 fg 12", "e2e 67 gfhn 1"][k].to_string());
+            out.push(["e2e 0 g 3", "e2e 1 f 1", "e2e 3 cnh 2", "e2e 2 fg 12", "e2e 67 gfhn 1"][k].to_string());
         } else {
             out.push(format!("resp {}", hex(&gen_reply(r))));
         }
